@@ -59,6 +59,14 @@ func buildC11(c *c11Case) *liveCase {
 	if sp, ok := strings.CutPrefix(c.Variant, "spelling:"); ok {
 		lc.Spelling = sp
 	}
+	switch c.Variant {
+	case "options:no-logdir":
+		lc.NoLogDir = true
+	case "options:quiet":
+		lc.Quiet = true
+	case "options:quiet-no-logdir":
+		lc.Quiet, lc.NoLogDir = true, true
+	}
 	if c.Variant == "unknown-interface" && lc.Cli != nil {
 		lc.Cli.Config = strings.ReplaceAll(lc.Cli.Config, "nameif inside", "nameif dmz")
 		lc.Cli.Config = strings.ReplaceAll(lc.Cli.Config, "interface Ethernet1\n", "interface Ethernet7\n")
@@ -82,7 +90,7 @@ func checkC11(tier, replay string) int {
 	env.BuildRepo(true)
 	rep := ev.New(env, "fault_enumeration")
 	rep.Rule = "Compare runs for {asa, ios, linux, panos, nsx} x {drc -C, do-approve compare} x 3 scenarios with non-empty differences x " +
-		"variant {healthy, marker absent, wrong hostname, unknown interface, banner not configured, other spellings of the compare verb/flag (Compare, COMPARE, --compare, -qC, --compare=true)} without fault, and for the healthy variant " +
+		"variant {healthy, marker absent, wrong hostname, unknown interface, banner not configured, other spellings of the compare verb/flag (Compare, COMPARE, --compare, -qC, --compare=true), drc -C without -L / with -q / both} without fault, and for the healthy variant " +
 		"a fault of kind {error text, unexpected output, connection close, wrong echo, stall | HTTP 500, 403, close, malformed body, status=error, stall} " +
 		"at every ordinal position of the dialogue of the reference run. Oracle: zero config-change and zero save/commit events in the simulator transcript " +
 		"(ASA 'terminal width 511' is a session setting). Non-trivial = the reference compare of the scenario reports differences; distinct = distinct (case, fault). " +
@@ -151,6 +159,12 @@ func checkC11(tier, replay string) int {
 			}
 			for _, sp := range spellings {
 				cases = append(cases, &c11Case{Type: k.typ, FrontEnd: k.fe, Scenario: k.sc, Variant: "spelling:" + sp})
+			}
+			if k.fe == "drc" {
+				// Other option sets of a manual drc -C call.
+				for _, v := range []string{"options:no-logdir", "options:quiet", "options:quiet-no-logdir"} {
+					cases = append(cases, &c11Case{Type: k.typ, FrontEnd: k.fe, Scenario: k.sc, Variant: v})
+				}
 			}
 			for ord := 1; ord <= steps[i]; ord++ {
 				for _, kind := range faultKinds(k.typ) {
